@@ -180,16 +180,23 @@ PROPS["C13"] = dict(
 )
 
 PROPS["C17"] = dict(
-    contracts=[], extra=["extra.c17_locks.check"], bounded=["c17"], level="other", trusted_base=COMMON_TRUSTED,
-    assumptions=[], not_decided=["sockets of an evicted pool are closed 'once nothing uses it any more' (weakref finalizer / GC): not decided",
+    contracts=["stdlib", "collections_ruc"], extra=["extra.c17_locks.check"], bounded=["c17"], level="other", trusted_base=COMMON_TRUSTED,
+    assumptions=["OrderedDict = the engine's dict abstraction (membership / value / size) plus the most recently inserted key; popitem(last=False) returns some present key that is not the most recently inserted one when there are >= 2 entries",
+                 "the dispose callback is used at an assumed contract (counted, may raise anything, does not touch the container)", "RLock: mutual exclusion assumed (sequential semantics inside a critical section)"],
+    not_decided=["WHICH entry is evicted ('least recently used') beyond 'not the one just inserted' is decided by the bounded reference-LRU check only (full insertion order is not in the dict model)",
+                                 "sockets of an evicted pool are closed 'once nothing uses it any more' (weakref finalizer / GC): not decided",
+                                 "sockets of an evicted pool are closed 'once nothing uses it any more' (weakref finalizer / GC): not decided",
                                  "in-flight responses of an evicted pool finish: follows from PoolManager never closing pools (no dispose callback); GC clause not decided"],
-    explanation="Two parts. (1) Lock-discipline obligations recomputed from the real ASTs on every run (discharged by evaluation): every access to RecentlyUsedContainer._container is inside `with self.lock`, the dispose callback is only "
+    explanation="Three parts. (0) PROVED over the real RecentlyUsedContainer.__setitem__ / __getitem__ / __delitem__ / __len__ / clear for every key, value, maxsize and container content: never more than maxsize entries (also when the dispose callback fails); "
+                "replacing a key disposes the old value exactly once and keeps the size; inserting with room evicts and disposes nothing; inserting when full evicts exactly one entry - never the new one when another exists - and disposes it exactly once; a lookup returns the stored "
+                "value, keeps it and disposes nothing; deletion removes and disposes exactly once; clear empties the map and disposes every value exactly once; entries other than the ones named are untouched (stated for an arbitrary ghost key). "
+                "(1) Lock-discipline obligations recomputed from the real ASTs on every run (discharged by evaluation): every access to RecentlyUsedContainer._container is inside `with self.lock`, the dispose callback is only "
                 "called outside the lock, PoolManager's lookup-or-create is one critical section of pools.lock, PoolManager's container has no dispose callback. (2) BOUNDED: the container against a reference LRU with a dispose log for every "
-                "operation sequence <= 5/6 over 3 keys x maxsize 0..3 (1.1e6 quick), PoolManager pool identity/bound for all request sequences <= 5 over 4 origins, and seeded real-thread runs. The sequential LRU semantics per critical section "
-                "is decided by the bounded part only (an OrderedDict model is not in the VC generator).",
-    level_text="Lock-discipline obligations (syntactic, complete) + bounded reference-LRU equivalence (exhaustive for short sequences): linearizability follows from the two by the trusted lock-discipline meta-theorem; not a deductive proof of the LRU semantics.",
+                "operation sequence <= 5/6 over 3 keys x maxsize 0..3 (1.1e6 quick), PoolManager pool identity/bound for all request sequences <= 5 over 4 origins, and seeded real-thread runs. The eviction ORDER (least recently used) "
+                "is decided by the bounded part only.",
+    level_text="Deductive proof of the container's bound / dispose-exactly-once / content contracts per operation + lock-discipline obligations (syntactic, complete) + bounded reference-LRU equivalence (exhaustive for short sequences): linearizability follows by the trusted lock-discipline meta-theorem; the LRU order itself is bounded-only.",
     level_note="GC/finalizer clauses not decided. Thread runs are a seeded sample (the scheduler picks interleavings); the lock-discipline obligations are what covers all interleavings.",
-    technique="syntactic lock-discipline obligations over the real AST + exhaustive bounded contract check against a reference LRU",
+    technique="contract-based deductive verification (pre/postconditions, frame via an arbitrary ghost key, loop invariant; z3) of RecentlyUsedContainer + syntactic lock-discipline obligations over the real AST + exhaustive bounded contract check against a reference LRU",
 )
 
 PROPS["C16"] = dict(
